@@ -89,6 +89,60 @@ theorem evalE_filter_pure {σ α : Type} (P : Prims σ) (env : Env) (w : σ) (xs
   rfl
 
 
+/-! ### a generic loop lemma: iterations that leave the environment in a shape determined by a model state -/
+
+/-- thread a state and the world through the elements, stop at the first element that returns -/
+def stepLoop {σ α τ : Type} (step : α → τ → σ → τ × σ × Option Val) : List α → τ → σ → τ × σ × Option Val
+  | [], t, w => (t, w, none)
+  | x :: xs, t, w =>
+    match step x t w with
+    | (t', w', none) => stepLoop step xs t' w'
+    | (t', w', some v) => (t', w', some v)
+
+def ctlOf : Option Val → Ctl
+  | none => .norm
+  | some v => .ret v
+
+theorem loopM_state {σ α τ : Type} (enc : α → Val) (f : Nat → Val → Env → σ → Option (Env × σ × Ctl)) (envOf : τ → Env)
+    (step : α → τ → σ → τ × σ × Option Val)
+    (hf : ∀ i x t w, f i (enc x) (envOf t) w = some (envOf (step x t w).1, (step x t w).2.1, ctlOf (step x t w).2.2)) :
+    ∀ (xs : List α) (i : Nat) (t : τ) (w : σ),
+      loopM f i (xs.map enc) (envOf t) w =
+        some (envOf (stepLoop step xs t w).1, (stepLoop step xs t w).2.1, ctlOf (stepLoop step xs t w).2.2) := by
+  intro xs
+  induction xs with
+  | nil => intro i t w; simp [loopM, stepLoop, ctlOf]
+  | cons x xs ih =>
+    intro i t w
+    simp only [List.map_cons, loopM, hf, stepLoop]
+    rcases hstep : step x t w with ⟨t', w', r⟩
+    cases r with
+    | none => simp only [ctlOf]; exact ih (i + 1) t' w'
+    | some v => simp [ctlOf]
+
+
+/-- the same with an invariant of the model state that non-returning iterations preserve -/
+theorem loopM_state_inv {σ α τ : Type} (enc : α → Val) (f : Nat → Val → Env → σ → Option (Env × σ × Ctl)) (envOf : τ → Env)
+    (step : α → τ → σ → τ × σ × Option Val) (I : τ → Prop)
+    (hf : ∀ i x t w, I t → f i (enc x) (envOf t) w = some (envOf (step x t w).1, (step x t w).2.1, ctlOf (step x t w).2.2))
+    (hI : ∀ x t w, I t → (step x t w).2.2 = none → I (step x t w).1) :
+    ∀ (xs : List α) (i : Nat) (t : τ) (w : σ), I t →
+      loopM f i (xs.map enc) (envOf t) w =
+        some (envOf (stepLoop step xs t w).1, (stepLoop step xs t w).2.1, ctlOf (stepLoop step xs t w).2.2) := by
+  intro xs
+  induction xs with
+  | nil => intro i t w _; simp [loopM, stepLoop, ctlOf]
+  | cons x xs ih =>
+    intro i t w ht
+    have hI' := hI x t w ht
+    simp only [List.map_cons, loopM, hf i x t w ht, stepLoop]
+    rcases hstep : step x t w with ⟨t', w', r⟩
+    rw [hstep] at hI'
+    cases r with
+    | none => simp only [ctlOf]; exact ih (i + 1) t' w' (hI' rfl)
+    | some v => simp [ctlOf]
+
+
 open Lean.Parser.Tactic in
 /-- unfold the MiniGo interpreter (on a concrete program) together with the given definitions -/
 macro "go_simp" "[" ts:simpLemma,* "]" : tactic =>
